@@ -4,11 +4,13 @@
 // scratch configuration roots (one per case, removed afterwards).
 //
 //	part "entries": every ordered sequence of <= N (quick 3, thorough 4) directory entries
-//	                over the 18 core kinds and of <= N-1 entries over all 26 kinds (= every
+//	                over the 18 core kinds and of <= N-1 entries over all 30 kinds (= every
 //	                multiset x every file-name ordering, so a good entry sorts before, after
 //	                and between bad ones; the same kind at two positions = two DISTINCT
 //	                certificates that collide in name+serial / name+key) x the three valid
 //	                store types, in an ordinary named store "s";
+//	part "bulk":    large stores (1025 / 10001, thorough also 65537 valid files), all good and
+//	                with one bad entry sorting first / last: the size of a store exempts nothing;
 //	part "names":   every file-name style of an entry (hidden, backup, editor, desktop
 //	                bookkeeping, extensions, case, blank, non-ASCII, long) x every kind, alone
 //	                and before / after an ordinary good entry: "every entry" knows no exempt name;
@@ -69,12 +71,15 @@ import (
 	"context"
 	"crypto/rand"
 	"crypto/x509"
+	"crypto/x509/pkix"
+	"encoding/asn1"
 	"encoding/pem"
 	"errors"
 	"fmt"
 	"math/big"
 	"os"
 	"path/filepath"
+	"runtime"
 	"sort"
 	"strings"
 	"sync"
@@ -135,7 +140,13 @@ var kinds = []kindDef{
 	{"pem-intermediate-ca+ca", good, bad, "tsa-non-root"},
 	{"pem-ca+leaf-issued-by-ca+ca", bad, bad, "not-ca-or-self-signed"},
 	{"pem-ca+intermediate-ca+ca", good, bad, "tsa-non-root"},
-	{"der-intermediate-ca+ca", good, bad, "tsa-non-root"}, // CA, signature of its own key, issuer name of somebody else
+	{"der-intermediate-ca+ca", good, bad, "tsa-non-root"},
+	// CA certificates signed by their OWN key whose issuer name differs from the subject name only in a way that a lossy
+	// comparison (printed form, parsed fields, common name only) does not see: not self-issued, hence no root
+	{"own-key-ca-issuer-has-extra-common-name", good, bad, "tsa-non-root"}, // issuer = subject with one more CN in front of the shared one
+	{"own-key-ca-issuer-rdns-reordered", good, bad, "tsa-non-root"},        // issuer = the subject's attributes in another order
+	{"own-key-ca-issuer-has-extra-dc", good, bad, "tsa-non-root"},          // issuer = subject plus a domainComponent attribute
+	{"own-key-ca-issuer-other-organization", good, bad, "tsa-non-root"},    // issuer = subject with another O, same CN // CA, signature of its own key, issuer name of somebody else
 }
 
 const (
@@ -165,6 +176,10 @@ const (
 	kCALeafCA
 	kCAInterCA
 	kDERInterThenCA
+	kIssuerExtraCN
+	kIssuerReordered
+	kIssuerExtraDC
+	kIssuerOtherO
 )
 
 const coreKinds = kOwnKeyOtherName + 1
@@ -303,6 +318,32 @@ func rawRoot(cn string, serial int64, key int, longer time.Duration) (*x509.Cert
 	return x509.ParseCertificate(der)
 }
 
+// ownKeyCA makes a CA certificate with the given subject and issuer names that is signed by its own key.
+func ownKeyCA(subject, issuer pkix.RDNSequence, key int) (*x509.Certificate, error) {
+	sub, err := asn1.Marshal(subject)
+	if err != nil {
+		return nil, err
+	}
+	iss, err := asn1.Marshal(issuer)
+	if err != nil {
+		return nil, err
+	}
+	nb, na := pki.DefaultWindow()
+	serialCounter++
+	t := &x509.Certificate{
+		SerialNumber: big.NewInt(900000 + serialCounter), RawSubject: sub, NotBefore: nb, NotAfter: na,
+		BasicConstraintsValid: true, IsCA: true, MaxPathLen: -1, KeyUsage: x509.KeyUsageCertSign | x509.KeyUsageCRLSign,
+	}
+	k := pki.Key(pki.EC256, key)
+	der, err := x509.CreateCertificate(rand.Reader, t, &x509.Certificate{RawSubject: iss}, k.Public(), k)
+	if err != nil {
+		return nil, err
+	}
+	return x509.ParseCertificate(der)
+}
+
+var serialCounter int64
+
 func buildMaterial() error {
 	// key 0: roots, key 1: intermediates, key 2: end-entity certificates, key 3: the private-key file.
 	// The keys differ on purpose: an issued certificate must not verify under its own key.
@@ -405,6 +446,37 @@ func buildMaterial() error {
 		mats[kCAInterCA][p] = bundle(false, ca(fmt.Sprintf("c13 bundle-e root %d", p), 0, nil).Cert, in, ca(fmt.Sprintf("c13 bundle-f root %d", p), 0, nil).Cert)
 		in = ca(fmt.Sprintf("c13 der-bundle intermediate-ca %d", p), 1, issuer).Cert
 		mats[kDERInterThenCA][p] = bundle(true, in, ca(fmt.Sprintf("c13 bundle-g root %d", p), 0, nil).Cert)
+		// own-key CAs with a near-miss issuer name
+		atv := func(oid []int, v string) pkix.RelativeDistinguishedNameSET {
+			return pkix.RelativeDistinguishedNameSET{{Type: oid, Value: v}}
+		}
+		oidC, oidO, oidCN, oidDC := []int{2, 5, 4, 6}, []int{2, 5, 4, 10}, []int{2, 5, 4, 3}, []int{0, 9, 2342, 19200300, 100, 1, 25}
+		nearMiss := []struct {
+			kind   int
+			issuer func(cn string) pkix.RDNSequence
+		}{
+			{kIssuerExtraCN, func(cn string) pkix.RDNSequence {
+				return pkix.RDNSequence{atv(oidC, "US"), atv(oidO, "Verif"), atv(oidCN, "somebody else"), atv(oidCN, cn)}
+			}},
+			{kIssuerReordered, func(cn string) pkix.RDNSequence {
+				return pkix.RDNSequence{atv(oidO, "Verif"), atv(oidC, "US"), atv(oidCN, cn)}
+			}},
+			{kIssuerExtraDC, func(cn string) pkix.RDNSequence {
+				return pkix.RDNSequence{atv(oidC, "US"), atv(oidO, "Verif"), atv(oidDC, "example"), atv(oidCN, cn)}
+			}},
+			{kIssuerOtherO, func(cn string) pkix.RDNSequence {
+				return pkix.RDNSequence{atv(oidC, "US"), atv(oidO, "Somebody Else"), atv(oidCN, cn)}
+			}},
+		}
+		for _, nm := range nearMiss {
+			cn := fmt.Sprintf("c13 %s %d", kinds[nm.kind].Name, p)
+			subj := pkix.RDNSequence{atv(oidC, "US"), atv(oidO, "Verif"), atv(oidCN, cn)}
+			x, err := ownKeyCA(subj, nm.issuer(cn), 1)
+			if err != nil {
+				return fmt.Errorf("%s: %v", kinds[nm.kind].Name, err)
+			}
+			mats[nm.kind][p] = one(x)
+		}
 	}
 	for _, n := range decoyNames {
 		decoys = append(decoys, ca("c13 decoy "+n, 0, nil).Cert)
@@ -490,6 +562,14 @@ func buildMaterial() error {
 		if m := mats[kCAInterCA][p].certs; !root(m[0]) || !inter(m[1]) || !root(m[2]) {
 			return fmt.Errorf("material pem-ca+intermediate-ca+ca/%d mislabelled", p)
 		}
+		for _, k := range []int{kIssuerExtraCN, kIssuerReordered, kIssuerExtraDC, kIssuerOtherO} {
+			if c := mats[k][p].certs[0]; !c.IsCA || !ownKey(c) || selfIssued(c) || c.CheckSignatureFrom(c) != nil {
+				return fmt.Errorf("material %s/%d mislabelled", kinds[k].Name, p)
+			}
+		}
+		if c := mats[kIssuerExtraCN][p].certs[0]; c.Subject.CommonName != c.Issuer.CommonName {
+			return fmt.Errorf("material own-key-ca-issuer-has-extra-common-name/%d: the parsed common names differ", p)
+		}
 		for _, k := range []int{kInterThenCA, kDERInterThenCA} {
 			if m := mats[k][p].certs; !inter(m[0]) || !root(m[1]) {
 				return fmt.Errorf("material %s/%d mislabelled", kinds[k].Name, p)
@@ -521,6 +601,9 @@ type loadCase struct {
 	AliasContent string `json:"alias_content,omitempty"`
 	// Then: the store is changed in place and loaded again by the same object.
 	Then []step `json:"then,omitempty"`
+	// Bulk: the store additionally holds this many ordinary files "b<i>.pem", each with its own valid root (they sort
+	// before "f<i>-entry" and after the entry-name style "leading-dash").
+	Bulk int `json:"bulk,omitempty"`
 	// Names: the file-name style of the entry at each position ("" or missing = "f<i>-entry"), see entryStyles.
 	Names []string `json:"names,omitempty"`
 	// Mtimes: "" = the modification times of the directory and of overwritten files are put back after the
@@ -541,6 +624,9 @@ func (c loadCase) String() string {
 	}
 	if len(c.Names) > 0 {
 		s += "|names=" + strings.Join(c.Names, ",")
+	}
+	if c.Bulk > 0 {
+		s += fmt.Sprintf("|bulk=%d", c.Bulk)
 	}
 	return s
 }
@@ -683,9 +769,43 @@ func placeEntry(root, contentDir string, pos, k int, names []string) error {
 	return os.WriteFile(p, m.file, 0o644)
 }
 
-func populate(root, contentDir string, entries []int, names []string) error {
+var (
+	bulkMu    sync.Mutex
+	bulkCerts []*x509.Certificate
+)
+
+// ensureBulk makes sure that n distinct valid roots for bulk files exist (generated in parallel, once).
+func ensureBulk(n int) {
+	bulkMu.Lock()
+	defer bulkMu.Unlock()
+	have := len(bulkCerts)
+	if n <= have {
+		return
+	}
+	pki.Key(pki.EC256, 0)
+	bulkCerts = append(bulkCerts, make([]*x509.Certificate, n-have)...)
+	var wg sync.WaitGroup
+	workers := runtime.GOMAXPROCS(0)
+	for w := 0; w < workers; w++ {
+		wg.Add(1)
+		go func(w int) {
+			defer wg.Done()
+			for i := have + w; i < n; i += workers {
+				bulkCerts[i] = ca(fmt.Sprintf("c13 bulk %d", i), 0, nil).Cert
+			}
+		}(w)
+	}
+	wg.Wait()
+}
+
+func populate(root, contentDir string, entries []int, names []string, bulk int) error {
 	if err := os.MkdirAll(contentDir, 0o755); err != nil {
 		return err
+	}
+	for i := 0; i < bulk; i++ {
+		if err := os.WriteFile(filepath.Join(contentDir, fmt.Sprintf("b%06d.pem", i)), pki.PEM(bulkCerts[i]), 0o644); err != nil {
+			return err
+		}
 	}
 	for pos, k := range entries {
 		if k == hole {
@@ -703,15 +823,15 @@ func storePathOf(root string, c loadCase) string {
 }
 
 // placeStore creates the object of the given kind at the store path.
-func placeStore(root, storePath, pathKind string, entries []int, names []string) error {
+func placeStore(root, storePath, pathKind string, entries []int, names []string, bulk int) error {
 	switch pathKind {
 	case "missing":
 		return nil
 	case "directory":
-		return populate(root, storePath, entries, names)
+		return populate(root, storePath, entries, names, bulk)
 	case "symlink-to-directory":
 		realDir := filepath.Join(root, "elsewhere", "real-store")
-		if err := populate(root, realDir, entries, names); err != nil {
+		if err := populate(root, realDir, entries, names, bulk); err != nil {
 			return err
 		}
 		return os.Symlink(realDir, storePath)
@@ -759,7 +879,7 @@ func build(root string, c loadCase, entries []int) (placed []bool, err error) {
 	if err := os.MkdirAll(filepath.Dir(storePath), 0o755); err != nil {
 		return nil, err
 	}
-	if err := placeStore(root, storePath, c.Path, entries, c.Names); err != nil {
+	if err := placeStore(root, storePath, c.Path, entries, c.Names, c.Bulk); err != nil {
 		return nil, err
 	}
 	parent := filepath.Dir(storePath)
@@ -818,7 +938,7 @@ func applyStep(root, storePath, prevPath string, prev []int, nextPath string, ne
 		if err := os.RemoveAll(filepath.Join(root, "elsewhere", "real-store")); err != nil {
 			return err
 		}
-		return placeStore(root, storePath, nextPath, next, names)
+		return placeStore(root, storePath, nextPath, next, names, 0)
 	}
 	di, err := os.Lstat(storePath)
 	if err != nil {
@@ -899,7 +1019,11 @@ func reference(c loadCase, pathKind string, entries []int) (expectation, error) 
 	if !ok {
 		return e, fmt.Errorf("store name %q has no hand-written label", c.Name)
 	}
-	nBad, nNonBad, anyOpen := 0, 0, false
+	nBad, nNonBad, anyOpen := 0, c.Bulk, false
+	for i := 0; i < c.Bulk; i++ {
+		e.Certs = append(e.Certs, bulkCerts[i].Raw)
+		e.NonBad = append(e.NonBad, bulkCerts[i].Raw)
+	}
 	for pos, k := range entries {
 		if k == hole {
 			continue
@@ -1124,6 +1248,7 @@ func judge(c loadCase, pathKind string, entryNames []string, exp expectation, ce
 }
 
 func runCase(scratch string, idx int, c loadCase) (res result) {
+	ensureBulk(c.Bulk)
 	steps := append([]step{{c.Path, c.Entries}}, c.Then...)
 	ents := make([][]int, len(steps))
 	exps := make([]expectation, len(steps))
@@ -1261,6 +1386,7 @@ func main() {
 	r := hx.New("C13")
 	r.Rule = "part entries: every ordered sequence (= multiset x file-name ordering) of <= N core entry kinds and <= N-1 of all kinds x {ca, signingAuthority, tsa} in store \"s\"; " +
 		"part names: every entry-name style x every kind x {alone, before, after a good entry} x 3 types; " +
+		"part bulk: stores of 1025 / 10001 (thorough also 65537) valid files, all good and with one bad entry sorting first / last, x 3 types; " +
 		"part paths: every type x name x object-at-store-path x alias-store content with a fixed good content; both on a fresh trust-store object and on one that loaded other stores before; " +
 		"part history: every content of <= M entries x every single in-place edit (replace by every other kind / remove / add) x {modification times moved, put back} x 3 types, all loads on ONE object; " +
 		"part path-history: every ordered pair of objects at the store path. Each case has its own scratch root with four decoys and the alias stores. " +
@@ -1275,7 +1401,8 @@ func main() {
 		"store names with blank / backslash / newline / star are not classified by the statement: either outcome accepted, on success exactly the files of the directory of that very name",
 		"an error together with a NON-EMPTY certificate list is a partial set; nil versus empty list with an error is only recorded",
 		"a later load on the same trust-store object is judged like a first load against the files on disk at that moment (every in-place change once with modification times moved forward and once with them put back, as cp -p / rsync -t / tar or a change within the timestamp granularity do; distinct key suffixes)",
-		"entry alphabet = DESIGN's twelve kinds + two multi-certificate files whose second certificate is the bad one + four collision kinds (self-issued but foreign signature, own-key signature but foreign issuer name, corrupted signature) + three kinds of distinct roots colliding in name+serial / name+key + five bundles whose bad certificate is first or in the middle (PEM and concatenated DER)",
+		"entry alphabet = DESIGN's twelve kinds + two multi-certificate files whose second certificate is the bad one + four collision kinds (self-issued but foreign signature, own-key signature but foreign issuer name, corrupted signature) + three kinds of distinct roots colliding in name+serial / name+key + five bundles whose bad certificate is first or in the middle (PEM and concatenated DER) + four own-key CAs whose issuer name is a near miss of the subject name (extra CN, RDN order, extra DC, other O)",
+		"issuer and subject are the same name only if their DER encodings are equal; names that differ in an attribute, its value or the attribute order are different names (differences of ASN.1 string type or letter case only are not in the alphabet)",
 		"no entry name is exempt from 'every entry' (hidden, backup, bookkeeping files included); certificates that differ in any byte are different certificates (the alphabet never stores the same certificate twice in one store, so de-duplication of identical certificates is not judged)",
 		"we run as root: permission faults (unreadable file/directory) are not produced",
 		"a panic of the loader is an infrastructure error",
@@ -1336,6 +1463,27 @@ func main() {
 		}
 	}
 	nStyled := len(cases) - nEntries - nPaths
+	// bulk: large stores (a listing in chunks, a cap on the number of entries, a limit of open files must not cut the
+	// store short): all good, and with one bad entry that sorts first / last
+	bulkSizes := []int{1025, 10001}
+	if r.Thorough() {
+		bulkSizes = append(bulkSizes, 65537)
+	}
+	ensureBulk(bulkSizes[len(bulkSizes)-1])
+	for _, n := range bulkSizes {
+		for _, t := range storeTypes[:3] {
+			cases = append(cases,
+				loadCase{Part: "bulk", Type: t.Value, Name: "s", Path: "directory", Bulk: n},
+				loadCase{Part: "bulk", Type: t.Value, Name: "s", Path: "directory", Bulk: n, Entries: []string{"garbage"}})
+			if n <= 10001 {
+				cases = append(cases,
+					loadCase{Part: "bulk", Type: t.Value, Name: "s", Path: "directory", Bulk: n, Entries: []string{"garbage"}, Names: []string{"leading-dash"}},
+					loadCase{Part: "bulk", Type: t.Value, Name: "s", Path: "directory", Bulk: n, Entries: []string{"leaf-issued-by-ca"}},
+					loadCase{Part: "bulk", Type: t.Value, Name: "s", Path: "directory", Bulk: n, Entries: []string{"symlink-to-cert"}, Names: []string{"leading-dash"}})
+			}
+		}
+	}
+	nBulk := len(cases) - nEntries - nPaths - nStyled
 	// instance reuse: every case again on a trust-store instance that loaded other stores before
 	for _, c := range append([]loadCase(nil), cases...) {
 		c.Prior = 1
@@ -1407,6 +1555,8 @@ func main() {
 	r.Extra["cases_entries_part"] = nEntries
 	r.Extra["cases_paths_part"] = nPaths
 	r.Extra["cases_names_part"] = nStyled
+	r.Extra["cases_bulk_part"] = nBulk
+	r.Extra["bulk_store_sizes"] = bulkSizes
 	r.Extra["entry_name_styles"] = len(entryStyles)
 	r.Extra["core_entry_kinds(longest_sequences,histories)"] = coreKinds
 	r.Extra["cases_fresh_and_reused_object"] = nBase
